@@ -121,21 +121,24 @@ type errPath struct {
 
 func runErrorSim(p *Prog, rr *reqRoles, forceDecision map[string]constant.Value) ([]errPath, int) {
 	s := newSim(p)
+	// helpers of the request type that the handler was split into are looked through
+	reply := replyFuncs(p, rr.req)
+	s.Inline = func(fn *ssa.Function) bool {
+		return recvNamed(fn) == rr.req && fn.Parent() == nil && !reply[fn] && fn != rr.checkIdem && fn != rr.execLoop
+	}
 	decNames := map[string]string{}
 	for _, n := range []string{"RetrySame", "RetryNext", "ReturnError"} {
 		decNames[p.constOf("proxy", n).ExactString()] = n
 	}
 	s.OnBranch = func(st *State, cond ssa.Value, truth bool) {
 		if ex, ok := cond.(*ssa.Extract); ok {
-			if ta, ok := ex.Tuple.(*ssa.TypeAssert); ok && ta.Parent() == rr.handleErr {
+			if ta, ok := ex.Tuple.(*ssa.TypeAssert); ok && recvNamed(ta.Parent()) == rr.req {
 				if truth {
 					st.aux["arm"] = shortType(ta.AssertedType)
-				} else if st.aux["arm"] == "" {
-					st.aux["arm"] = ""
 				}
 			}
 		}
-		if bo, ok := cond.(*ssa.BinOp); ok && truth && bo.Parent() == rr.handleErr {
+		if bo, ok := cond.(*ssa.BinOp); ok && truth && recvNamed(bo.Parent()) == rr.req {
 			for _, side := range []ssa.Value{bo.X, bo.Y} {
 				if c, ok := side.(*ssa.Const); ok && c.Value != nil && typeIs(c.Type(), "proxy", "RetryDecision") && bo.Op.String() == "==" {
 					st.aux["dec"] = decNames[c.Value.ExactString()]
